@@ -1006,3 +1006,241 @@ Proof.
   apply stats_from_log_inv in H2.
   destruct H2 as (ta & td & mx & tools & tools1 & _ & _ & _ & _ & _ & _ & _ & _ & _ & Hd & Ha). tauto.
 Qed.
+
+(* a merge commit: the short cut of the code, whatever the note says *)
+Lemma merge_accepted_zero m ignored n raw ga gd s :
+  commit_stats m ignored n raw true ga gd = SOk s ->
+  s_accepted s = 0 /\ s_human s = s_added s /\ sum_tools t_accepted (s_tools s) = 0.
+Proof.
+  intros H. apply commit_stats_inv in H. destruct H as (r & H1 & H2). apply accepted_merge in H1. subst r.
+  apply stats_from_log_inv in H2. cbn [fst snd] in H2.
+  destruct H2 as (ta & td & mx & tools & tools1 & F1 & F2 & F3 & _ & _ & Hh & Hacc & _ & _ & _ & Hadd).
+  split; [assumption|]. split; [rewrite Hh, Hadd, sat_sub_spec; lia|].
+  cbn [fold_res] in F2. inversion F2. subst tools1.
+  pose proof (prompt_fold_struct _ _ _ _ F1 tools_struct_nil) as [_ TS2]. cbn [snd] in TS2.
+  destruct (map_res_finish _ _ _ F3) as [M1 _].
+  rewrite sum_tools_sumv, (M1 t_accepted) by reflexivity. apply sumv_zero. assumption.
+Qed.
+
+(* ------------------------------------------------------------------ the numstat loop on what git prints *)
+
+Inductive nrow := NumRow (a d : N) (p : str) | BinRow (p : str).
+
+Definition row_path (r : nrow) : str := match r with NumRow _ _ p => p | BinRow p => p end.
+
+Definition row_text (r : nrow) : str :=
+  match r with
+  | NumRow a d p => print_N a ++ c_tab :: print_N d ++ c_tab :: p
+  | BinRow p => c_dash :: c_tab :: c_dash :: c_tab :: p
+  end.
+
+Definition numstat_text (rows : list nrow) : str := flat_map (fun r => row_text r ++ [c_nl]) rows.
+
+(* a path as git prints it unquoted: no newline, no tab, not ending in a carriage return;
+   counts are u32 *)
+Definition row_ok (r : nrow) : Prop :=
+  mem c_nl (row_path r) = false /\ mem c_tab (row_path r) = false /\ last_is c_cr (row_path r) = false /\
+  match r with NumRow a d _ => a <= u32_max /\ d <= u32_max | BinRow _ => True end.
+
+Definition row_added (ignored : str -> bool) (r : nrow) : N :=
+  match r with NumRow a _ p => if ignored p then 0 else a | BinRow _ => 0 end.
+Definition row_deleted (ignored : str -> bool) (r : nrow) : N :=
+  match r with NumRow _ d p => if ignored p then 0 else d | BinRow _ => 0 end.
+
+Lemma digit_not_ws c : is_digit c = true -> is_ws c = false.
+Proof. unfold is_digit, is_ws. lia. Qed.
+
+Lemma last_is_tab_cons p : last_is c_cr p = false -> last_is c_cr (c_tab :: p) = false.
+Proof.
+  destruct p as [|c p]; [reflexivity|]. intros H.
+  change (c_tab :: c :: p) with ([c_tab] ++ c :: p). rewrite last_is_app_cons. assumption.
+Qed.
+
+Lemma row_text_no_nl r : row_ok r -> mem c_nl (row_text r) = false.
+Proof.
+  intros (H1 & _). destruct r as [a d p|p]; cbn [row_text row_path] in *.
+  - rewrite mem_false_app. cbn [mem]. rewrite mem_false_app. cbn [mem]. rewrite H1.
+    rewrite !(mem_digits_false c_nl) by (try apply print_N_digits; reflexivity). reflexivity.
+  - cbn [mem]. rewrite H1. reflexivity.
+Qed.
+
+Lemma row_text_no_cr r : row_ok r -> last_is c_cr (row_text r) = false.
+Proof.
+  intros (_ & _ & H3 & _). destruct r as [a d p|p]; cbn [row_text row_path] in *.
+  - change (print_N a ++ c_tab :: print_N d ++ c_tab :: p) with (print_N a ++ c_tab :: (print_N d ++ c_tab :: p)).
+    rewrite last_is_app_cons.
+    change (c_tab :: print_N d ++ c_tab :: p) with ((c_tab :: print_N d) ++ c_tab :: p).
+    rewrite last_is_app_cons. apply last_is_tab_cons. assumption.
+  - change (c_dash :: c_tab :: c_dash :: c_tab :: p) with ([c_dash; c_tab; c_dash] ++ c_tab :: p).
+    rewrite last_is_app_cons. apply last_is_tab_cons. assumption.
+Qed.
+
+Lemma lines_numstat_text rows : Forall row_ok rows -> lines (numstat_text rows) = map row_text rows.
+Proof.
+  induction rows as [|r rows]; intros F; [reflexivity|]. inversion F as [|? ? Hr F']. subst.
+  cbn [numstat_text flat_map map]. fold (numstat_text rows). rewrite <- app_assoc. cbn [app].
+  rewrite lines_cons by (apply row_text_no_nl; assumption).
+  rewrite strip_cr_id by (apply row_text_no_cr; assumption). rewrite IHrows by assumption. reflexivity.
+Qed.
+
+Lemma numstat_line_row m ignored st r : row_ok r ->
+  fst st + row_added ignored r <= u32_max -> snd st + row_deleted ignored r <= u32_max ->
+  numstat_line m ignored st (row_text r) = SOk (fst st + row_added ignored r, snd st + row_deleted ignored r).
+Proof.
+  intros (H1 & H2 & H3 & H4) BA BD. destruct r as [a d p|p]; cbn [row_text row_path row_added row_deleted] in *.
+  - destruct (print_N_first_digit a) as (c & s & E & Hc).
+    destruct (print_N_first_digit d) as (c' & s' & E' & Hc').
+    set (rest := c_tab :: print_N d ++ c_tab :: p).
+    assert (forallb is_ws (print_N a ++ rest) = false) as W.
+    { rewrite E. cbn [app forallb]. rewrite (digit_not_ws c Hc). reflexivity. }
+    assert (negb (match print_N a ++ rest with c0 :: _ => is_digit c0 | [] => false end) = false) as Dg.
+    { rewrite E. cbn [app]. rewrite Hc. reflexivity. }
+    unfold numstat_line. rewrite W, Dg. subst rest.
+    rewrite split_on_app by (apply mem_digits_false; [reflexivity|apply print_N_digits]).
+    rewrite split_on_app by (apply mem_digits_false; [reflexivity|apply print_N_digits]).
+    rewrite split_on_nomem by assumption.
+    destruct (ignored p).
+    + rewrite !N.add_0_r. destruct st; reflexivity.
+    + destruct H4 as [La Ld]. rewrite !parse_u32_print by assumption.
+      rewrite (uadd_small m (fst st) a BA). cbn [sbind].
+      assert (str_eqb (print_N d) [c_dash] = false) as NE.
+      { rewrite E'. cbn [str_eqb]. destruct (c' =? c_dash) eqn:X; [|reflexivity].
+        apply N.eqb_eq in X. subst c'. discriminate. }
+      rewrite NE, (uadd_small m (snd st) d BD). reflexivity.
+  - unfold numstat_line. cbn [forallb]. change (is_ws c_dash) with false. cbn [andb].
+    change (is_digit c_dash) with false. cbn [negb]. rewrite !N.add_0_r. destruct st; reflexivity.
+Qed.
+
+Lemma numstat_fold m ignored rows : forall st, Forall row_ok rows ->
+  fst st + sumN (row_added ignored) rows <= u32_max -> snd st + sumN (row_deleted ignored) rows <= u32_max ->
+  fold_res (numstat_line m ignored) (map row_text rows) st
+  = SOk (fst st + sumN (row_added ignored) rows, snd st + sumN (row_deleted ignored) rows).
+Proof.
+  induction rows as [|r rows]; intros st F BA BD.
+  - cbn [map fold_res]. change (sumN (row_added ignored) []) with 0. change (sumN (row_deleted ignored) []) with 0.
+    rewrite !N.add_0_r. destruct st; reflexivity.
+  - inversion F as [|? ? Hr F']. subst. rewrite !sumN_cons in *. cbn [map fold_res].
+    rewrite numstat_line_row by (try assumption; lia). cbn [sbind].
+    rewrite IHrows by (try assumption; cbn [fst snd]; lia). cbn [fst snd]. f_equal. f_equal; lia.
+Qed.
+
+Lemma numstat_totals m ignored rows : Forall row_ok rows ->
+  sumN (row_added ignored) rows <= u32_max -> sumN (row_deleted ignored) rows <= u32_max ->
+  parse_numstat m ignored (numstat_text rows)
+  = SOk (sumN (row_added ignored) rows, sumN (row_deleted ignored) rows).
+Proof.
+  intros F BA BD. unfold parse_numstat. rewrite lines_numstat_text by assumption.
+  rewrite numstat_fold by (try assumption; cbn [fst snd]; lia). reflexivity.
+Qed.
+
+(* ------------------------------------------------------------------ witnesses *)
+
+Definition no_ignore : str -> bool := fun _ => false.
+Definition w_f : str := [102].
+Definition w_h1 : str := [104; 49].
+Definition w_h2 : str := [104; 50].
+Definition w_prompt (ov : N) : prompt := mkPrompt [116] [109] 1 0 ov.
+Definition w_raw : list (str * list N) := [(w_f, [1])].
+
+(* K1: one accepted line, a prompt with overriden_lines = 5 *)
+Definition wit_cap : option note :=
+  Some (mkNote [mkFatt w_f [mkEntry w_h1 [Single 1]]] [(w_h1, w_prompt 5)]).
+(* two sessions list line 1 *)
+Definition wit_overlap : option note :=
+  Some (mkNote [mkFatt w_f [mkEntry w_h1 [Single 1]; mkEntry w_h2 [Range 1 1]]]
+               [(w_h1, w_prompt 0); (w_h2, w_prompt 0)]).
+(* two sections for the same file *)
+Definition wit_dup : option note :=
+  Some (mkNote [mkFatt w_f [mkEntry w_h1 [Single 1]]; mkFatt w_f [mkEntry w_h1 [Single 1]]] [(w_h1, w_prompt 0)]).
+(* no prompt record for the session *)
+Definition wit_noprompt : option note := Some (mkNote [mkFatt w_f [mkEntry w_h1 [Single 1]]] []).
+(* overriden_lines = u32::MAX *)
+Definition wit_ovf : option note :=
+  Some (mkNote [mkFatt w_f [mkEntry w_h1 [Single 1]]] [(w_h1, w_prompt u32_max)]).
+
+Definition stats_of (r : sres stats) : stats :=
+  match r with SOk s => s | SPanic => mkStats 0 0 0 0 0 0 0 0 [] end.
+Definition is_ok {A} (r : sres A) : bool := match r with SOk _ => true | SPanic => false end.
+
+Lemma tool_mixed_refuted :
+  exists n raw ga, onote_ok n = true /\ ga = added_count no_ignore raw /\ ga <= u32_max /\
+    forall m, exists s, commit_stats m no_ignore n raw false ga 0 = SOk s /\
+      Known_C19 n ga (s_accepted s) = true /\
+      sum_tools t_mixed (s_tools s) <> s_mixed s /\
+      sum_tools t_ai_additions (s_tools s) <> s_ai_additions s /\
+      s_added s < sum_tools t_ai_additions (s_tools s).
+Proof.
+  exists wit_cap, w_raw, 1. split; [reflexivity|]. split; [reflexivity|]. split; [unfold u32_max; lia|].
+  intros m. exists (stats_of (commit_stats m no_ignore wit_cap w_raw false 1 0)).
+  destruct m; vm_compute; repeat split; discriminate.
+Qed.
+
+Lemma overlap_double_count_refuted :
+  exists n raw ga, olift note_disjoint n = false /\ olift note_paths_unique n = true /\
+    olift note_prompts_present n = true /\ ga = added_count no_ignore raw /\ ga <= u32_max /\
+    forall m, exists s, commit_stats m no_ignore n raw false ga 0 = SOk s /\
+      s_added s < s_accepted s /\ s_human s + s_accepted s <> s_added s /\
+      s_added s < s_ai_additions s /\ s_accepted s <> inter_count no_ignore n raw.
+Proof.
+  exists wit_overlap, w_raw, 1. repeat (split; [reflexivity || (unfold u32_max; lia)|]).
+  intros m. exists (stats_of (commit_stats m no_ignore wit_overlap w_raw false 1 0)).
+  destruct m; vm_compute; repeat split; discriminate.
+Qed.
+
+Lemma duplicate_section_refuted :
+  exists n raw ga, olift note_disjoint n = true /\ olift note_paths_unique n = false /\
+    olift note_prompts_present n = true /\ ga = added_count no_ignore raw /\ ga <= u32_max /\
+    forall m, exists s, commit_stats m no_ignore n raw false ga 0 = SOk s /\
+      s_added s < s_accepted s /\ s_human s + s_accepted s <> s_added s /\ s_added s < s_ai_additions s.
+Proof.
+  exists wit_dup, w_raw, 1. repeat (split; [reflexivity || (unfold u32_max; lia)|]).
+  intros m. exists (stats_of (commit_stats m no_ignore wit_dup w_raw false 1 0)).
+  destruct m; vm_compute; repeat split; discriminate.
+Qed.
+
+Lemma missing_prompt_refuted :
+  exists n raw ga, olift note_disjoint n = true /\ olift note_paths_unique n = true /\
+    olift note_prompts_present n = false /\ ga = added_count no_ignore raw /\ ga <= u32_max /\
+    forall m, exists s, commit_stats m no_ignore n raw false ga 0 = SOk s /\
+      sum_tools t_accepted (s_tools s) <> s_accepted s.
+Proof.
+  exists wit_noprompt, w_raw, 1. repeat (split; [reflexivity || (unfold u32_max; lia)|]).
+  intros m. exists (stats_of (commit_stats m no_ignore wit_noprompt w_raw false 1 0)).
+  destruct m; vm_compute; repeat split; discriminate.
+Qed.
+
+(* a prompt counter near u32::MAX: a build with overflow checks panics, a wrapping build
+   reports a per-tool ai_additions that is not accepted + mixed *)
+Lemma overflow_refuted :
+  exists n raw ga, onote_ok n = true /\ ga = added_count no_ignore raw /\ ga <= u32_max /\
+    commit_stats Checked no_ignore n raw false ga 0 = SPanic /\
+    exists s, commit_stats Wrapping no_ignore n raw false ga 0 = SOk s /\
+      exists kt, In kt (s_tools s) /\ t_ai_additions (snd kt) <> t_accepted (snd kt) + t_mixed (snd kt).
+Proof.
+  exists wit_ovf, w_raw, 1. split; [reflexivity|]. split; [reflexivity|]. split; [unfold u32_max; lia|].
+  split; [vm_compute; reflexivity|].
+  exists (stats_of (commit_stats Wrapping no_ignore wit_ovf w_raw false 1 0)). split; [vm_compute; reflexivity|].
+  eexists. split; [vm_compute; left; reflexivity|]. vm_compute. discriminate.
+Qed.
+
+(* non-vacuity: a commit with two files, two sessions, an ignored file and a human line, for which
+   every hypothesis holds and every number is non-trivial *)
+Definition nv_lock : str := [108].
+Definition nv_ignore (p : str) : bool := str_eqb p nv_lock.
+Definition nv_note : option note :=
+  Some (mkNote [mkFatt w_f [mkEntry w_h1 [Range 2 3]; mkEntry w_h2 [Single 5]];
+                mkFatt nv_lock [mkEntry w_h1 [Range 1 9]]]
+               [(w_h1, w_prompt 1); (w_h2, mkPrompt [117] [109] 4 2 0)]).
+Definition nv_raw : list (str * list N) := [(w_f, [5; 2; 3; 3; 7; 8]); (nv_lock, [1; 2; 3])].
+Definition nv_text : str := numstat_text [NumRow 5 1 w_f; NumRow 3 0 nv_lock; BinRow [98]].
+
+Lemma nonvacuous :
+  onote_ok nv_note = true /\ added_count nv_ignore nv_raw = 5 /\ inter_count nv_ignore nv_note nv_raw = 3 /\
+  Known_C19 nv_note 5 3 = false /\
+  forall m, stats_for_commit m nv_ignore nv_text nv_note nv_raw false
+    = SOk (mkStats 2 1 4 3 5 2 1 5
+             [([116; 58; 58; 109], mkTool 3 1 2 1 0); ([117; 58; 58; 109], mkTool 1 0 1 4 2)]).
+Proof.
+  split; [vm_compute; reflexivity|]. split; [vm_compute; reflexivity|]. split; [vm_compute; reflexivity|].
+  split; [vm_compute; reflexivity|]. intros m. destruct m; vm_compute; reflexivity.
+Qed.
